@@ -36,6 +36,7 @@ struct World {
   int runner_tid[2] = {-1, -1};
   int prod_tid[kMaxProd] = {-1, -1, -1, -1};
   std::thread::id ctx_thread{};
+  bool far_timer[kMaxItems] = {};  // timed context: the item is a schedule_after(1h) that gets cancelled, queued among the plain items
 };
 
 void plan_items(World* w) {
@@ -66,7 +67,10 @@ void producer(World* w, int p, Sched sched) {
     if (it.producer != p) continue;
     yields(it.pre_yields);
     if (it.stop_mode == 1) item_request_stop(&it);
-    if (w->nostop_receiver && it.stop_mode == 0)
+    if constexpr (std::is_same_v<Sched, decltype(std::declval<unifex::timed_single_thread_context&>().get_scheduler())>) {
+      if (w->far_timer[k]) item_start(&it, unifex::schedule_after(sched, std::chrono::hours(1)));
+      else item_start(&it, unifex::schedule(sched));
+    } else if (w->nostop_receiver && it.stop_mode == 0)
       item_start<ItemReceiverNoStop>(&it, unifex::schedule(sched));
     else
       item_start(&it, unifex::schedule(sched));
@@ -250,6 +254,9 @@ void body_timed(void*) {
   plan_items(w);
   faults();
   if (draw(3) == 0) usim_fault_rate(USIM_F_CLOCK_JITTER, 200);
+  // some items are far-future timers that are always cancelled: they sit in the queue behind/between the plain items
+  for (int k = 0; k < w->nitems; ++k)
+    if (draw(4) == 0) { w->far_timer[k] = true; if (w->items[k].stop_mode < 2) w->items[k].stop_mode = 2 + draw(2); }
   sample(w, "timed_single_thread_context.schedule");
   arena_box<unifex::timed_single_thread_context> ctx;
   ctx.construct();
